@@ -84,7 +84,7 @@ def gen_history_cases(run, n):
 def main(run, args):
     import checklib
     quick = run.tier == "quick"
-    n = 600 if quick else 8000
+    n = 600 if quick else 4000
     pl = vlib.proof_leg(ID, THEOREMS)
     for pr in pl["problems"]:
         vlib.log("proof-leg problem:", pr["kind"], pr["detail"][:400])
